@@ -380,7 +380,7 @@ def selection_traces(R, tier):
             for tsize in ([1, 2, 3] if quick else [1, 2, 3, 5]):
                 for repl in (False, True):
                     for target in range(1, len(vals) + 1):
-                        if len(vals) ** (tsize * target) > (3000 if quick else 60000):
+                        if len(vals) ** (tsize * target) > (3000 if quick else 9000):
                             continue
                         leaves = 0
 
@@ -408,7 +408,7 @@ def selection_traces(R, tier):
                             return events
 
                         try:
-                            for script, s, res in explore(run, cap=64, max_leaves=70000):
+                            for script, s, res in explore(run, cap=64, max_leaves=10000):
                                 if isinstance(res, Exception):
                                     res = [{"e": "selend", "exc": exc_name(res)}]
                                 traces.append((f"tour/{pi}/{int(minimise)}/{tsize}/{int(repl)}/{target}/{leaves}", res,
@@ -452,7 +452,7 @@ def selection_traces(R, tier):
                         return events
 
                     try:
-                        for script, s, res in explore(run, cap=64, max_leaves=20000):
+                        for script, s, res in explore(run, cap=64, max_leaves=(3000 if quick else 6000)):
                             if isinstance(res, Exception):
                                 res = [{"e": "selend", "exc": exc_name(res)}]
                             traces.append((f"lex/{pi}/{mi}/{int(eps)}/{target}/{leaves}", res, {"k": "selection"}))
